@@ -191,6 +191,13 @@ for name, args, variant in protos_v:
     lines.append('static int thunk_%d(CallCtx& C) {' % k)
     for b in body:
         lines.append('  ' + b)
+    if re.search(r'(widening|extrapolation)_assign', name) and nh_in >= 2:
+        # documented precondition of every widening / extrapolation: the argument is contained in the receiver
+        # (NNC polyhedra even intersect the argument with the receiver under that assumption)
+        lines.append('  if (!C.ensure_contains((void*) a0, (const void*) a1)) return C.skip();')
+    if name.endswith('_ascii_load') and nh_in >= 1:
+        # an object whose ascii_load failed is in an unspecified state: it may only be destroyed
+        post.append('C.after_load(r, (void*) a0);')
     lines.append('  C.before();')
     lines.append('  int r = C.guard([&]() { return %s(%s); });' % (name, ', '.join(call)))
     for p in post:
